@@ -186,12 +186,12 @@ func checkC07(c *core.Ctx, l *core.Ledger) {
 		var hitEdges, missEdges []core.Edge
 		core.Instrs(f, func(in ssa.Instruction) {
 			if mu, ok := in.(*ssa.MapUpdate); ok {
-				if fld, _ := core.LoadedField(mu.Map); fld != nil && fld.Name() == "Modules" {
+				if fld, _ := core.LoadedField(mu.Map); fld != nil && core.FieldName(fld) == "Modules" {
 					regs = append(regs, in)
 				}
 			}
 			if lk, ok := in.(*ssa.Lookup); ok && lk.CommaOk {
-				if fld, _ := core.LoadedField(lk.X); fld != nil && fld.Name() == "Modules" {
+				if fld, _ := core.LoadedField(lk.X); fld != nil && core.FieldName(fld) == "Modules" {
 					for _, r := range *lk.Referrers() {
 						if ex, ok := r.(*ssa.Extract); ok && ex.Index == 1 {
 							for _, rr := range *ex.Referrers() {
@@ -250,14 +250,14 @@ func checkC07(c *core.Ctx, l *core.Ledger) {
 		castArgOK := false
 		core.Instrs(f, func(in ssa.Instruction) {
 			if st, ok := in.(*ssa.Store); ok {
-				if fa, ok := st.Addr.(*ssa.FieldAddr); ok && core.FieldOf(fa).Name() == n.typeField {
+				if fa, ok := st.Addr.(*ssa.FieldAddr); ok && core.FieldName(core.FieldOf(fa)) == n.typeField {
 					if s := core.Sym(st.Val); strings.Contains(s, "Link(") && strings.HasSuffix(s, "#0") {
 						typeStore = in
 					}
 				}
 			}
 			if call, ok := in.(ssa.CallInstruction); ok && call.Common().IsInvoke() && call.Common().Method.Name() == "Link" && len(call.Common().Args) == 2 {
-				if fld, _ := core.LoadedField(call.Common().Value); fld != nil && fld.Name() == n.valField {
+				if fld, _ := core.LoadedField(call.Common().Value); fld != nil && core.FieldName(fld) == n.valField {
 					cast = in
 					if tf, _ := core.LoadedField(call.Common().Args[1]); tf != nil && tf.Name() == n.typeField {
 						castArgOK = true
@@ -282,7 +282,7 @@ func checkC07(c *core.Ctx, l *core.Ledger) {
 					if ex, ok := r.(*ssa.Extract); ok && ex.Index == 0 {
 						for _, rr := range *ex.Referrers() {
 							if st, ok := rr.(*ssa.Store); ok {
-								if fa, ok := st.Addr.(*ssa.FieldAddr); ok && core.FieldOf(fa).Name() == n.valField {
+								if fa, ok := st.Addr.(*ssa.FieldAddr); ok && core.FieldName(core.FieldOf(fa)) == n.valField {
 									stored = true
 								}
 							}
@@ -340,7 +340,7 @@ func checkFieldRelink(c *core.Ctx, l *core.Ledger, rule string) {
 			if derived[fld] {
 				continue // link-derived cache (e.g. TypedefSpec.root), handled by LINK-PHASE
 			}
-			key := n + "." + fld.Name()
+			key := n + "." + core.FieldName(fld)
 			linkM := c.SSAFunc(c.LookupFunc("compile", n+".Link"))
 			if linkM == nil {
 				l.Bad(rule, key, c.Rel(fld.Pos()), "the owner type has no Link method that could replace this reference")
@@ -427,7 +427,7 @@ func checkFieldRelink(c *core.Ctx, l *core.Ledger, rule string) {
 		// in Link itself or in a helper of the package that Link calls
 		core.WalkInlined(f, inlineHelpers("resolveService"), func(in ssa.Instruction, via []*ssa.Call) {
 			if st, isSt := in.(*ssa.Store); isSt {
-				if fa, isFA := st.Addr.(*ssa.FieldAddr); isFA && core.FieldOf(fa).Name() == "Parent" {
+				if fa, isFA := st.Addr.(*ssa.FieldAddr); isFA && core.FieldName(core.FieldOf(fa)) == "Parent" {
 					if strings.Contains(core.Sym(st.Val), "resolveService(") {
 						ok = true
 					}
@@ -531,7 +531,7 @@ func linkDerivedFields(c *core.Ctx) map[*types.Var]bool {
 			// exclude plain flags / bookkeeping: keep only fields of interface or pointer type
 			switch fld.Type().Underlying().(type) {
 			case *types.Interface, *types.Pointer:
-				if fld.Name() != "Parent" && fld.Name() != "parentSrc" {
+				if core.FieldName(fld) != "Parent" && core.FieldName(fld) != "parentSrc" {
 					out[fld] = true
 				}
 			}
